@@ -83,6 +83,10 @@ type AdvIn struct {
 	Spec   int64 `json:"spec"`
 	Status int64 `json:"status"`
 	RV     int64 `json:"rv"`
+	// Super: the stored Advanced StatefulSet carries the built-in spec AND things the built-in object has since lost
+	// (a node selector, a toleration, a template annotation): an earlier interrupted run created it, then the
+	// built-in set was edited by removing things.  The spec to write differs from the stored one by omissions only.
+	Super bool `json:"super,omitempty"`
 }
 type FaultIn struct {
 	At   int    `json:"at"`
@@ -204,8 +208,27 @@ func builtinSet(in SetIn) *appsv1.StatefulSet {
 	}
 }
 
-func advancedSet(name string, a *AdvIn, sel *SelIn) *asv1.StatefulSet {
+func advancedSet(name string, a *AdvIn, sel *SelIn, set SetIn) *asv1.StatefulSet {
 	replicas := int32(a.Spec)
+	if a.Super {
+		b := builtinSet(set)
+		var spec asv1.StatefulSetSpec
+		if err := json.Unmarshal([]byte(jsonStr(b.Spec)), &spec); err != nil {
+			panic(err)
+		}
+		spec.Replicas = &replicas
+		spec.Template.Annotations = map[string]string{"left-over": "1"}
+		spec.Template.Spec.NodeSelector = map[string]string{"disk": "ssd"}
+		spec.Template.Spec.Tolerations = []corev1.Toleration{{Key: "dedicated", Operator: corev1.TolerationOpExists}}
+		return &asv1.StatefulSet{
+			TypeMeta: metav1.TypeMeta{Kind: "StatefulSet", APIVersion: asv1.SchemeGroupVersion.String()},
+			ObjectMeta: metav1.ObjectMeta{Name: name, Namespace: ns, UID: "uid-advanced", ResourceVersion: strconv.FormatInt(a.RV, 10),
+				Labels: map[string]string{"meta": strconv.FormatInt(a.Meta, 10)}},
+			Spec: spec,
+			Status: asv1.StatefulSetStatus{Replicas: int32(a.Status), ReadyReplicas: int32(a.Status),
+				CurrentRevision: fmt.Sprintf("pre-rev%d", a.Status)},
+		}
+	}
 	return &asv1.StatefulSet{
 		TypeMeta: metav1.TypeMeta{Kind: "StatefulSet", APIVersion: asv1.SchemeGroupVersion.String()},
 		ObjectMeta: metav1.ObjectMeta{Name: name, Namespace: ns, UID: "uid-advanced", ResourceVersion: strconv.FormatInt(a.RV, 10),
@@ -300,7 +323,7 @@ func newEnv(in *UpgradeIn) *env {
 	e.pod0, e.pvc0 = jsonStr(pod), jsonStr(pvc)
 	aobjs := []runtime.Object{}
 	if in.Advanced != nil {
-		aobjs = append(aobjs, advancedSet(in.Set.Name, in.Advanced, in.Set.Selector))
+		aobjs = append(aobjs, advancedSet(in.Set.Name, in.Advanced, in.Set.Selector, in.Set))
 	}
 	e.kube = kubefake.NewSimpleClientset(kobjs...)
 	e.as = asfake.NewSimpleClientset(aobjs...)
